@@ -378,10 +378,17 @@ func newGSIBlock(s Subtitles) (g *gsiBlock) {
 			g.creationDate = *s.Metadata.STLCreationDate
 		}
 		g.countryOfOrigin = s.Metadata.STLCountryOfOrigin
-		g.displayStandardCode = s.Metadata.STLDisplayStandardCode
+		// Metadata coming from another format has no display standard code: keep the default one
+		if len(s.Metadata.STLDisplayStandardCode) > 0 {
+			g.displayStandardCode = s.Metadata.STLDisplayStandardCode
+		}
 		g.editorContactDetails = s.Metadata.STLEditorContactDetails
 		g.editorName = s.Metadata.STLEditorName
-		g.framerate = s.Metadata.Framerate
+		// Metadata coming from another format may have no framerate or one that has no disk format code: keep the
+		// default one, otherwise the file can't be read back
+		if _, ok := stlFramerateMapping.GetInverse(s.Metadata.Framerate); ok {
+			g.framerate = s.Metadata.Framerate
+		}
 		if v, ok := stlLanguageMapping.GetInverse(s.Metadata.Language); ok {
 			g.languageCode = v.(string)
 		}
